@@ -35,7 +35,7 @@ EXPLANATION = (
     'Decides this structural part, not value equality.'
     ' R7/R8 (imported from C08-R2/R3 and C10-R5): a value can only round-trip if the generated validators accept every valid value (bounds inclusive, Nullable delegating, constructors carrying every parameter and the Nullable wrap) and every declared default is emitted (an unset defaulted field otherwise fails to encode).'
     ' RD (decision drift, stonelint.conddrift): the tests of the functions this property is anchored in (stonelint.ownership) are compared with reference/conditions.json; a relation, polarity or connective changed over the same operands, or an operand purely added or dropped, is a violation; re-spellings and new or removed tests are not claimed.'
-    " RE (expression drift, stonelint.exprdrift): the same functions' attribute names, variable reads, simple statements, calls and arithmetic/slice literals are compared with reference/expressions.json; a substituted attribute or variable, a dropped call or assignment, swapped arguments or a changed literal is a violation; any other edit is not claimed.")
+    " RE (expression drift, stonelint.exprdrift): the same functions' attribute names, variable reads, simple statements, calls and arithmetic/slice literals are compared with reference/expressions.json; a substituted attribute or variable, a dropped call or assignment, swapped arguments or a changed literal is a violation; any other edit is not claimed. RC (call-condition drift, stonelint.conddrift.run_calls): for every call of a repository or imported-library function in those functions, the path conditions of its occurrences are compared with reference/conditions.json by truth table; an assignment under which the function used to make the call and now completes without it is a violation (tests on memo tables, emptiness of the iterated collection and earlier refusals excepted; re-spelled conditions are not claimed). MK (memo-key rule, stonelint.memo): a memo table or done-set the reference tree does not have must be keyed by every access path the skipped code reads, injectively and type-aware.")
 ASSUMPTIONS = [
     'new-style JSON only (old_style and msgpack excluded, as in the property)',
     'class-test atoms on a local refer to its value after the last assignment on the path',
@@ -500,6 +500,8 @@ def run(pm, ctx):
                      'every declared default is emitted on the generated attribute (shared with '
                      'C10-R5)')
 
+    validators_return_their_argument(pm, ctx)
+
     from ..conddrift import run_decisions
     from ..ownership import OWN
     run_decisions(pm, ctx, 'C04-RD', OWN['C04'])
@@ -531,3 +533,63 @@ def run(pm, ctx):
               msg='the two subtype tables no longer spell the tags alike (%s): the encoder emits a '
                   '.tag the decoder does not know' % bare,
               key='C04-R4|%s|tag-spelling' % gm.qualname)
+
+
+# coercions the wire format documents: a Float accepts an integer and stores the float
+RETURN_COERCIONS = {('Real', 'float(val)'): 'json_serializer.rst: integers are accepted for floats'}
+
+
+def validators_return_their_argument(pm, ctx):
+    """C04-R9: what a primitive validator returns is the value it was given
+    (the decoded value equals the value that was encoded only if validate is
+    the identity on accepted values; the Float coercion is the documented
+    exception)."""
+    from ..pathcond import terminates
+    ctx.rule('C04-R9', 'a primitive validator returns the value it was given: no rebinding of the '
+                       'argument reaches a return (documented coercions excepted)')
+    VALM = 'stone.backends.python_rsrc.stone_validators'
+    n = 0
+    for cname in ('Boolean', 'Integer', 'Real', 'String', 'Bytes', 'Timestamp', 'Void'):
+        c = pm.classes.get('%s.%s' % (VALM, cname))
+        f = c.methods.get('validate') if c is not None else None
+        if f is None:
+            continue
+        n += 1
+        arg = f.params[1]
+        bad = []
+        binds = [x for x in own_nodes(f.node)
+                 if isinstance(x, (ast.Assign, ast.AugAssign, ast.AnnAssign)) and any(
+                     isinstance(t, ast.Name) and t.id == arg
+                     for tt in (x.targets if isinstance(x, ast.Assign) else [x.target])
+                     for t in ast.walk(tt))]
+        for b in binds:
+            # does the binding reach a return?  not if a block around it ends in raise
+            reaches = True
+            child, par = b, getattr(b, '_parent', None)
+            while par is not None and par is not f.node:
+                for field in ('body', 'orelse', 'finalbody'):
+                    blk = getattr(par, field, None)
+                    if isinstance(blk, list) and child in blk:
+                        rest = blk[blk.index(child) + 1:]
+                        if terminates(rest) and not any(isinstance(r, ast.Return)
+                                                        for s_ in rest for r in ast.walk(s_)):
+                            reaches = False
+                child, par = par, getattr(par, '_parent', None)
+            if not reaches:
+                continue
+            val = unparse(b.value) if getattr(b, 'value', None) is not None else '?'
+            if (cname, val) in RETURN_COERCIONS:
+                continue
+            bad.append((b.lineno, val))
+        rets = [r for r in own_nodes(f.node) if isinstance(r, ast.Return)]
+        other = [unparse(r.value) for r in rets if r.value is not None and
+                 unparse(r.value) != arg]
+        ctx.check('C04-R9', not bad and not other,
+                  'bv.%s.validate returns its argument' % cname, f.loc,
+                  msg='bv.%s.validate no longer returns the value it was given (%s): what is '
+                      'stored or encoded differs from what the caller passed, so '
+                      'decode(encode(v)) != v' % (
+                          cname, ', '.join(['%s rebound to %s at line %d' % (arg, v, ln)
+                                            for ln, v in bad] + ['returns %s' % o for o in other])),
+                  key='C04-R9|%s' % f.qualname)
+    ctx.floor('C04-R9', n, 6, 'primitive validators')
